@@ -656,5 +656,6 @@ func runC07(r *run) {
 			}
 		}
 	}
+	callArgsDoNotStick(r.violate)
 	slog.VerifResetGlobals()
 }
